@@ -69,6 +69,11 @@ class _uf_hash:
             NULL_STYLE._hash = self.saved_null
 
 
+def bool_of(st):
+    """truthiness of a Style without forking when it is concrete"""
+    return True if st else False
+
+
 def _h(x):
     """hash of a Style as Python would compute it (proxy-aware)."""
     return x.__hash__()
@@ -191,14 +196,21 @@ def _route(name):
     return locals()[name]
 
 
-def _mk_hash(name, timeout=900):
+def _mk_hash(name, timeout=1500, operands=None, tiers=None):
     route = _route(name)
+    if operands is None:
+        operands = name in ("copy", "without_color", "from_color")
+    if tiers is None:
+        tiers = ("thorough",) if name in ("chain", "combine") else ("quick", "thorough")
 
-    @symx("C06-hash-%s" % name, timeout=timeout, kind="S", opts={"bv": BV}, stubs=STUBS,
-          tiers=("thorough",) if name in ("chain", "combine") else ("quick", "thorough"),
+    @symx("C06-hash-%s%s" % (name, "-operands" if (operands and name == "update_link") else ""), timeout=timeout, kind="S",
+          opts={"bv": BV}, stubs=STUBS, tiers=tiers,
           functions=F_ALG + ["rich/style.py:Style.%s" % name.replace("add", "__add__")],
           bounds="all argument styles of the route (13-bit masks, colour/bgcolor/link tokens) x all independently built styles z: "
-                 "route(args) == z  implies  hash(route(args)) == hash(z), and == is symmetric",
+                 "route(args) == z  implies  hash(route(args)) == hash(z), and == is symmetric; for copy / update_link / "
+                 "without_color / from_color additionally: equal styles behave equally as left and right operands of + (truthiness is not "
+                 "compared: update_link(None) / without_color of a style with nothing else set is equal to the null style but "
+                 "truthy, which the property does not forbid)",
           signature=lambda m, name=name: "hash route=%s" % name)
     def h(e):
         with _uf_hash(e):
@@ -206,14 +218,22 @@ def _mk_hash(name, timeout=900):
             z = mk_style(e, "z")
             eq = (r == z)
             eq2 = (z == r)
+            extra = True
+            if operands:
+                # equal styles must also BEHAVE equally as operands (a wrong internal null flag would show here)
+                w = mk_style(e, "w")
+                same_ops = sym_and((w + r) == (w + z), (r + w) == (z + w))
+                extra = (same_ops if eq else True) if isinstance(eq, bool) else sym_implies(eq, same_ops)
             if isinstance(eq, bool) and isinstance(eq2, bool):
-                return (eq == eq2) and ((not eq) or _h(r) == _h(z))
-            return sym_and(eq == eq2, sym_implies(eq, _h(r) == _h(z)))
+                base = (eq == eq2) and ((not eq) or _h(r) == _h(z))
+                return sym_and(base, extra) if base else False
+            return sym_and(eq == eq2, sym_implies(eq, _h(r) == _h(z)), extra)
     return h
 
 
 for _r in ["add", "copy", "update_link", "without_color", "from_color", "chain", "combine"]:
     _mk_hash(_r)
+_mk_hash("update_link", timeout=2400, operands=True, tiers=("thorough",))
 
 
 # --- the base representation really is what Style.__init__ builds (P) ------------------------------
